@@ -91,6 +91,8 @@ pub fn query_panel(u: &[MEvent]) -> Vec<MFilter> {
         MFilter { authors: vec![author(0), author(1)], tags: vec![("t".into(), vec!["x".into(), "y".into()])], ..Default::default() },
         MFilter::default(),
         MFilter { ids: vec![u[2].id.clone(), u[1].id.clone()], limit: Some(1), ..Default::default() },
+        MFilter { authors: vec![author(0), author(1)], kinds: vec![1], ..Default::default() },
+        MFilter { authors: vec![author(1), author(0)], ..Default::default() },
     ]
 }
 
@@ -226,6 +228,13 @@ struct RunLog {
 }
 
 /// Runs the threads under the controller. Err = inconclusive (a worker did not report back).
+///
+/// One worker runs at a time. A worker paused at `*.enter` is about to take the LMDB writer lock:
+/// normally it is only released when the lock is free; when the schedule byte has its top bit set it
+/// may also be released while another worker holds the lock ("speculative release") - it then either
+/// reports back at once (code that answers before taking the lock) or blocks in `write_txn()`, which
+/// the controller notices by a short time-out; a blocked worker reports its next point as soon as the
+/// holder lets go of the lock.
 fn run_controlled(st: &Store, u: &[MEvent], owned: &[pocket_types::OwnedEvent], panel: &[MFilter], c: &Case) -> Result<RunLog, String> {
     install_hook();
     let n = c.threads.len();
@@ -250,35 +259,99 @@ fn run_controlled(st: &Store, u: &[MEvent], owned: &[pocket_types::OwnedEvent], 
                 CTX.with(|cx| *cx.borrow_mut() = None);
             });
         }
-        // controller state
         #[derive(Clone, PartialEq, Debug)]
         enum S {
             Starting,
             Paused(&'static str),
+            /// released into a held writer lock; will report when it gets the lock
+            Blocked,
             Done,
         }
-        let mut state = vec![S::Starting; n];
-        let mut cur_op = vec![0usize; n];
-        let mut lock_holder: Option<usize> = None;
-        let mut commits = 0usize;
-        let mut write_slot: BTreeMap<usize, usize> = BTreeMap::new(); // worker -> index into log.writes
-        let mut read_c1: BTreeMap<usize, usize> = BTreeMap::new();
-        let mut in_read: Vec<bool> = vec![false; n];
-        let mut in_txn: Vec<bool> = vec![false; n];
-        // on an error path: dropping the senders lets every blocked worker run to its end, so that the scope can join
-        // wait until every worker is at its first op.begin (they all start running freely until then)
+        struct Ctl {
+            state: Vec<S>,
+            cur_op: Vec<usize>,
+            lock_holder: Option<usize>,
+            commits: usize,
+            write_slot: BTreeMap<usize, usize>,
+            read_c1: BTreeMap<usize, usize>,
+            in_read: Vec<bool>,
+            in_txn: Vec<bool>,
+        }
+        let mut k = Ctl {
+            state: vec![S::Starting; n],
+            cur_op: vec![0usize; n],
+            lock_holder: None,
+            commits: 0,
+            write_slot: BTreeMap::new(),
+            read_c1: BTreeMap::new(),
+            in_read: vec![false; n],
+            in_txn: vec![false; n],
+        };
+        // bookkeeping for a message; returns true when the sender has paused or finished
+        let mut handle = |k: &mut Ctl, log: &mut RunLog, m: Msg| -> bool {
+            match m {
+                Msg::Point(x, p) => {
+                    match p {
+                        "store.txn" | "remove.txn" => {
+                            k.in_txn[x] = true;
+                            k.lock_holder = Some(x);
+                            let op = c.threads[x][k.cur_op[x]].clone();
+                            let _ = k.write_slot.insert(x, log.writes.len());
+                            log.writes.push(WriteRec { op, result: String::new(), committed: false });
+                        }
+                        "store.committed" | "remove.committed" => {
+                            k.commits += 1;
+                            k.in_txn[x] = false;
+                            if k.lock_holder == Some(x) {
+                                k.lock_holder = None;
+                            }
+                            if let Some(slot) = k.write_slot.get(&x) {
+                                log.writes[*slot].committed = true;
+                            }
+                            if (0..n).any(|o| o != x && k.in_read[o]) {
+                                log.commit_during_read = true;
+                            }
+                        }
+                        _ => {}
+                    }
+                    k.state[x] = S::Paused(p);
+                    true
+                }
+                Msg::OpDone(x, i, r) => {
+                    let op = c.threads[x][i].clone();
+                    if is_write(&op) {
+                        k.in_txn[x] = false;
+                        if k.lock_holder == Some(x) {
+                            k.lock_holder = None;
+                        }
+                        match k.write_slot.remove(&x) {
+                            Some(slot) => log.writes[slot].result = r,
+                            // answered without ever taking the writer lock: ordered at its completion
+                            None => log.writes.push(WriteRec { op, result: r, committed: false }),
+                        }
+                    } else {
+                        k.in_read[x] = false;
+                        let c1 = k.read_c1.remove(&x).unwrap_or(0);
+                        log.reads.push(ReadRec { worker: x, opi: i, op, c1, c2: k.commits, result: r });
+                    }
+                    k.cur_op[x] = i + 1;
+                    false
+                }
+                Msg::Finished(x) => {
+                    k.state[x] = S::Done;
+                    true
+                }
+            }
+        };
+        // every worker runs freely up to its first op.begin
         let mut waiting = n;
         while waiting > 0 {
             match from_workers.recv_timeout(Duration::from_secs(20)) {
-                Ok(Msg::Point(w, p)) => {
-                    state[w] = S::Paused(p);
-                    waiting -= 1;
+                Ok(m) => {
+                    if handle(&mut k, &mut log, m) {
+                        waiting -= 1;
+                    }
                 }
-                Ok(Msg::Finished(w)) => {
-                    state[w] = S::Done;
-                    waiting -= 1;
-                }
-                Ok(Msg::OpDone(..)) => {}
                 Err(_) => {
                     resumes.clear();
                     return Err("worker did not reach its first point".to_string());
@@ -286,115 +359,124 @@ fn run_controlled(st: &Store, u: &[MEvent], owned: &[pocket_types::OwnedEvent], 
             }
         }
         let mut sched_pos = 0usize;
+        const RUN_LENGTHS: [u32; 16] = [1, 1, 1, 2, 2, 3, 3, 4, 5, 6, 8, 12, 16, 24, 40, 400];
+        let mut run_left = 0u32;
+        let mut run_worker: Option<usize> = None;
+        let mut cur_byte = 0u8;
         loop {
+            if k.state.iter().all(|s| *s == S::Done) {
+                break;
+            }
+            // a blocked worker takes the lock as soon as it is free: wait for its report first
+            if k.lock_holder.is_none() && k.state.iter().any(|s| *s == S::Blocked) {
+                match from_workers.recv_timeout(Duration::from_secs(20)) {
+                    Ok(m) => {
+                        let _ = handle(&mut k, &mut log, m);
+                        continue;
+                    }
+                    Err(_) => {
+                        resumes.clear();
+                        return Err(format!("blocked worker never got the lock: {:?}", k.state));
+                    }
+                }
+            }
+            // one schedule byte = one run: bits 0-2 choose the worker, bits 3-6 the run length, bit 7 allows a
+            // speculative release into a held writer lock
+            if run_left == 0 {
+                cur_byte = if c.schedule.is_empty() { 0 } else { c.schedule[sched_pos % c.schedule.len()] };
+                sched_pos += 1;
+                run_left = RUN_LENGTHS[((cur_byte >> 3) & 0xF) as usize];
+                run_worker = None;
+            }
+            run_left -= 1;
+            let byte = cur_byte;
+            let speculative_ok = byte & 0x80 != 0;
             let runnable: Vec<usize> = (0..n)
-                .filter(|w| match &state[*w] {
+                .filter(|w| match &k.state[*w] {
                     S::Paused(p) => {
-                        // a worker about to take the writer lock can only run when the lock is free
                         let wants_lock = *p == "store.enter" || *p == "remove.enter";
-                        !(wants_lock && lock_holder.is_some() && lock_holder != Some(*w))
+                        !wants_lock || k.lock_holder.is_none() || k.lock_holder == Some(*w) || speculative_ok
                     }
                     _ => false,
                 })
                 .collect();
             if runnable.is_empty() {
-                if state.iter().all(|s| *s == S::Done) {
-                    break;
+                if speculative_ok || run_left > 0 {
+                    run_left = 0;
+                    if speculative_ok {
+                        continue;
+                    }
+                }
+                // only workers waiting for the lock are left and the holder is... nobody: cannot happen; only blocked ones: wait
+                if k.state.iter().any(|s| *s == S::Blocked) {
+                    match from_workers.recv_timeout(Duration::from_secs(20)) {
+                        Ok(m) => {
+                            let _ = handle(&mut k, &mut log, m);
+                            continue;
+                        }
+                        Err(_) => {
+                            resumes.clear();
+                            return Err(format!("deadlock: {:?} lock={:?}", k.state, k.lock_holder));
+                        }
+                    }
                 }
                 resumes.clear();
-                return Err(format!("no runnable worker: {:?} lock={:?}", state, lock_holder));
+                return Err(format!("no runnable worker: {:?} lock={:?}", k.state, k.lock_holder));
             }
-            let choice = if c.schedule.is_empty() { 0 } else { c.schedule[sched_pos % c.schedule.len()] as usize };
-            sched_pos += 1;
-            let w = runnable[choice % runnable.len()];
+            let w = match run_worker {
+                Some(x) if runnable.contains(&x) => x,
+                _ => {
+                    let x = runnable[(byte & 0x7) as usize % runnable.len()];
+                    run_worker = Some(x);
+                    x
+                }
+            };
             log.steps += 1;
-            // bookkeeping at release time
-            if let S::Paused(p) = &state[w] {
+            let mut speculative = false;
+            if let S::Paused(p) = &k.state[w] {
                 match *p {
                     "op.begin" => {
-                        let op = &c.threads[w][cur_op[w]];
+                        let op = &c.threads[w][k.cur_op[w]];
                         if !is_write(op) {
-                            let _ = read_c1.insert(w, commits);
-                            in_read[w] = true;
+                            let _ = k.read_c1.insert(w, k.commits);
+                            k.in_read[w] = true;
                         }
                     }
                     "store.enter" | "remove.enter" => {
-                        lock_holder = Some(w);
-                        let op = c.threads[w][cur_op[w]].clone();
-                        let _ = write_slot.insert(w, log.writes.len());
-                        log.writes.push(WriteRec { op, result: String::new(), committed: false });
+                        speculative = k.lock_holder.is_some() && k.lock_holder != Some(w);
                     }
                     _ => {}
                 }
             }
-            if (0..n).any(|o| o != w && in_txn[o]) {
+            if (0..n).any(|o| o != w && k.in_txn[o]) {
                 log.overlapped_writer = true;
             }
+            k.state[w] = S::Starting; // running
             if resumes[w].send(()).is_err() {
                 resumes.clear();
                 return Err("worker vanished".to_string());
             }
-            // run it until it pauses again or finishes
+            // run it until it pauses again, finishes, or (speculative release) turns out to be blocked
             loop {
-                match from_workers.recv_timeout(Duration::from_secs(20)) {
-                    Ok(Msg::Point(x, p)) => {
-                        if x != w {
-                            resumes.clear();
-                            return Err(format!("unexpected point {p} from worker {x} while {w} runs"));
-                        }
-                        match p {
-                            "store.txn" | "remove.txn" => in_txn[w] = true,
-                            "store.committed" | "remove.committed" => {
-                                commits += 1;
-                                in_txn[w] = false;
-                                if lock_holder == Some(w) {
-                                    lock_holder = None;
-                                }
-                                if let Some(slot) = write_slot.get(&w) {
-                                    log.writes[*slot].committed = true;
-                                }
-                                if (0..n).any(|o| o != w && in_read[o]) {
-                                    log.commit_during_read = true;
-                                }
-                            }
-                            _ => {}
-                        }
-                        state[w] = S::Paused(p);
-                        break;
-                    }
-                    Ok(Msg::OpDone(x, i, r)) => {
-                        if x != w {
-                            resumes.clear();
-                            return Err("unexpected completion".to_string());
-                        }
-                        let op = c.threads[w][i].clone();
-                        if is_write(&op) {
-                            in_txn[w] = false;
-                            if lock_holder == Some(w) {
-                                lock_holder = None;
-                            }
-                            if let Some(slot) = write_slot.remove(&w) {
-                                log.writes[slot].result = r;
-                            } else {
-                                // failed before taking the lock? (cannot happen: enter precedes everything)
-                                log.writes.push(WriteRec { op, result: r, committed: false });
-                            }
-                        } else {
-                            in_read[w] = false;
-                            let c1 = read_c1.remove(&w).unwrap_or(0);
-                            log.reads.push(ReadRec { worker: w, opi: i, op, c1, c2: commits, result: r });
-                        }
-                        cur_op[w] = i + 1;
-                    }
-                    Ok(Msg::Finished(x)) => {
-                        state[x] = S::Done;
-                        if x == w {
+                let timeout = if speculative { Duration::from_millis(25) } else { Duration::from_secs(20) };
+                match from_workers.recv_timeout(timeout) {
+                    Ok(m) => {
+                        let from = match &m {
+                            Msg::Point(x, _) | Msg::OpDone(x, _, _) | Msg::Finished(x) => *x,
+                        };
+                        let stopped = handle(&mut k, &mut log, m);
+                        if from == w && stopped {
                             break;
                         }
+                        // messages of a formerly blocked worker that got the lock meanwhile are just recorded
                     }
                     Err(_) => {
+                        if speculative {
+                            k.state[w] = S::Blocked;
+                            break;
+                        }
                         resumes.clear();
-                        return Err(format!("worker {w} did not report back within 20 s (blocked in a lock the controller does not model?) state={:?}", state));
+                        return Err(format!("worker {w} did not report back within 20 s (blocked in a lock the controller does not model?) state={:?}", k.state));
                     }
                 }
             }
@@ -431,7 +513,7 @@ impl Prop for C14 {
         ]
     }
     fn cases(&self, tier: Tier) -> u32 {
-        tier.pick(4_000, 80_000)
+        tier.pick(8_000, 150_000)
     }
     fn max_shrink_iters(&self) -> u32 {
         600
@@ -442,16 +524,51 @@ impl Prop for C14 {
             1 => (0u8..7).prop_map(WOp::Remove),
             1 => (0u8..7).prop_map(WOp::GetById),
             1 => (0u8..7).prop_map(WOp::Has),
-            5 => (0u8..9).prop_map(WOp::Query),
+            5 => prop_oneof![2 => (0u8..11).prop_map(WOp::Query), 3 => prop::sample::select(vec![0u8, 1, 3, 4, 6, 9, 10]).prop_map(WOp::Query)],
         ];
-        (
-            prop::collection::vec(prop::collection::vec(wop, 1..4), 2..5),
+        let free = (
+            prop::collection::vec(prop::collection::vec(wop.clone(), 1..4), 2..5),
             prop::collection::vec(0u8..7, 0..4),
             prop::collection::vec(any::<u8>(), 0..40),
             Just(tier.pick(0u16, 3)),
         )
-            .prop_map(|(threads, initial, schedule, stress_rounds)| Case { threads, initial, schedule, stress_rounds })
-            .boxed()
+            .prop_map(|(threads, initial, schedule, stress_rounds)| Case { threads, initial, schedule, stress_rounds });
+        // scenario template: one reader running a multi-range query, one writer storing events that fall into
+        // different ranges of that query (in scan order or reversed), optionally more threads
+        // (query, events of its first-scanned range, events of a later range)
+        let scen = prop::sample::select(vec![
+            (3u8, vec![1u8, 2, 6], vec![3u8, 4]),
+            (9, vec![0], vec![5]),
+            (10, vec![5], vec![0, 1, 3]),
+            (4, vec![0, 1, 2, 5], vec![3, 4, 6]),
+            (6, vec![0, 1, 2], vec![5]),
+            (0, vec![1], vec![2, 6]),
+            (1, vec![3], vec![4, 0]),
+        ]);
+        let templated = (
+            scen,
+            any::<[u8; 4]>(),
+            any::<bool>(),
+            prop::collection::vec(prop::collection::vec(wop, 1..3), 0..2),
+            prop::collection::vec(0u8..7, 0..3),
+            prop::collection::vec(any::<u8>(), 0..12),
+            Just(tier.pick(0u16, 3)),
+        )
+            .prop_map(|((q, first, later), pick, reversed, extra, initial, schedule, stress_rounds)| {
+                let a = first[pick[0] as usize % first.len()];
+                let b = later[pick[1] as usize % later.len()];
+                let mut writer = if reversed { vec![WOp::Store(b), WOp::Store(a)] } else { vec![WOp::Store(a), WOp::Store(b)] };
+                if pick[2] % 3 == 0 {
+                    writer.push(WOp::Store(later[pick[3] as usize % later.len()]));
+                }
+                let mut threads = vec![vec![WOp::Query(q)], writer];
+                threads.extend(extra);
+                if pick[2] % 2 == 0 {
+                    threads.swap(0, 1);
+                }
+                Case { threads, initial, schedule, stress_rounds }
+            });
+        prop_oneof![3 => free, 2 => templated].boxed()
     }
     fn label_floors(&self) -> Vec<(&'static str, f64)> {
         vec![("writer-overlapped", 0.3), ("commit-during-read", 0.1), ("same-event-from-two-threads", 0.05)]
